@@ -63,13 +63,15 @@ CONFIGS = {
     # tracked field + three levels
     "trk":    (["tsum", "single", "byKey:0"], [1], 5, 2, 0),
     # LRU / retain / lookup
-    "gc1":    (["single", "byKey:0", "byKey:1"], [1], 5, 1, 1),
+    "gc1":    (["single", "byKey:0"], [1], 5, 1, 1),
     "gc1v":   (["single", "byKey:0", "byKey:1"], [1, 2], 5, 1, 1),
-    "gc2":    (["single", "byKey:0", "pair", "leaf:B"], [2], 5, 2, 1),
+    "gc2":    (["single", "pair", "leaf:B"], [2], 5, 2, 1),
+    "gc2w":   (["single", "byKey:0", "pair", "leaf:B"], [2], 5, 2, 1),
     # MemoRef parameter
     "memo":   (["leaf:B", "ofMemo"], [0, 2], 5, 1, 1),
     # C04
-    "twin":   (["twin:a", "twin:b", "single"], [1], 5, 1, 1),
+    "twin":   (["twin:a", "twin:b", "single"], [1], 4, 1, 1),
+    "twin5":  (["twin:a", "twin:b", "single"], [1], 5, 1, 1),
     # deeper / wider variants (thorough)
     "dyn6":   (["leaf:A", "leaf:B", "single", "top"], [0, 2], 6, 1, 1),
     "outer":  (["leaf:A", "leaf:B", "single", "top", "tsum", "outer"], [0, 2], 5, 2, 1),
@@ -80,12 +82,12 @@ CONFIGS = {
 PLAN = {
     ("C01", "quick"): ["dyn", "trk", "memo"],
     ("C02", "quick"): ["eqw", "dyn", "trk"],
-    ("C03", "quick"): ["gc1", "gc2", "memo"],
+    ("C03", "quick"): ["gc1", "gc2"],
     ("C04", "quick"): ["twin"],
     ("C01", "thorough"): ["dyn", "trk", "memo", "eqw5", "dyn6", "outer", "gc3"],
     ("C02", "thorough"): ["eqw5", "dyn", "trk", "dyn6", "outer", "gc1v"],
-    ("C03", "thorough"): ["gc1v", "gc2", "memo", "gc3", "dyn6", "outer"],
-    ("C04", "thorough"): ["twin", "twin6"],
+    ("C03", "thorough"): ["gc1v", "gc2w", "memo", "gc3", "dyn6", "outer"],
+    ("C04", "thorough"): ["twin5", "twin6"],
 }
 SIM = {  # simulation walks: (nodes, vals, depth, capacity, maxretain, num)
     "quick": (ALL_NODES, [0, 1, 2], 30, 2, 2, 150),
